@@ -40,6 +40,7 @@ def stable_id(name: str) -> str:
 def work(task):
     """Runs in a worker process: one function or lemma end to end."""
     kind, modname, key, prop, opts = task
+    _no_tqdm_monitor()
     t0 = time.time()
     out = {"key": key, "kind": kind, "obligations": [], "undecided": [], "error": None, "sha": None, "file": None,
            "inlined": [], "callees": [], "externals": [], "search": None, "paths": 0}
@@ -172,7 +173,19 @@ def load_known():
         return json.load(f).get("findings", [])
 
 
+def _no_tqdm_monitor():
+    """sqlfluff's progress bars start a tqdm monitor THREAD; a fork taken while that thread holds tqdm's class lock leaves the
+    lock held for ever in the child (workers of the bounded checks' pools were seen stuck in tqdm.__new__).  No monitor thread,
+    no stale lock: must run before anything creates a progress bar."""
+    try:
+        import tqdm
+        tqdm.tqdm.monitor_interval = 0
+    except Exception:
+        pass
+
+
 def main(argv=None):
+    _no_tqdm_monitor()
     ap = argparse.ArgumentParser()
     ap.add_argument("prop")
     ap.add_argument("--tier", default=os.environ.get("VERIF_TIER", "quick"))
